@@ -39,31 +39,44 @@ def exactify(e):
     return e
 
 
+def angle_symbols(k):
+    suf = '' if k == 0 else str(k)
+    return sympy.Symbol('c' + suf, real=True), sympy.Symbol('s' + suf, real=True)
+
+
 def to_poly(expr, angle, extra=()):
-    """expr: sympy expression in the real symbol(s); angle: the sympy expression t such that
-    c = cos(pi*t), s = sin(pi*t).  Returns (re, im) polynomials in c, s, r2 and `extra` symbols."""
+    """expr: sympy expression; angle: an expression t (or a list of expressions t_k, most complex
+    first) such that c_k = cos(pi*t_k), s_k = sin(pi*t_k).  Distinct angles are treated as independent
+    points of the circle (a stronger statement than the one about the related angles, hence sound).
+    Returns (re, im) polynomials in c_k, s_k, r2 and the `extra` symbols."""
     e = exactify(expr)
-    theta = Symbol('theta__', real=True)
-    if angle is not None:
-        e = e.subs(angle, theta / pi)
-        e = e.subs(sympy.conjugate(theta), theta)
+    angles = [] if angle is None else (list(angle) if isinstance(angle, (list, tuple)) else [angle])
+    thetas = []
+    for k, a in enumerate(angles):
+        th = Symbol('theta%d__' % k, real=True)
+        thetas.append(th)
+        e = e.subs(a, th / pi)
     e = e.rewrite(cos)
     e = sympy.expand(e, complex=False)
     e = sympy.expand_trig(e)
     e = e.rewrite(cos)
     e = sympy.expand_trig(sympy.expand(e))
-    e = e.subs({cos(theta): c, sin(theta): s})
+    allowed = {r2} | set(extra)
+    for k, th in enumerate(thetas):
+        ck, sk = angle_symbols(k)
+        e = e.subs({cos(th): ck, sin(th): sk})
+        allowed |= {ck, sk}
     e = e.subs(sqrt(2), r2)
     e = sympy.expand(e)
-    bad = e.atoms(sympy.Function) | (e.free_symbols - {c, s, r2} - set(extra))
-    if bad or e.has(theta):
-        raise NotPolynomial('cannot normalise %s (left over: %s)' % (expr, bad or theta))
+    bad = e.atoms(sympy.Function) | (e.free_symbols - allowed)
+    if bad:
+        raise NotPolynomial('cannot normalise %s (left over: %s)' % (expr, bad))
     re, im = e.as_real_imag()
     re, im = sympy.expand(re), sympy.expand(im)
     for part in (re, im):
         if part.atoms(sympy.Function) or part.has(I):
             raise NotPolynomial('real/imaginary split failed for %s' % expr)
-        if not part.is_polynomial(c, s, r2, *extra):
+        if not part.is_polynomial(*allowed):
             raise NotPolynomial('not a polynomial: %s' % part)
     return re, im
 
